@@ -365,6 +365,11 @@ struct Dump {
    }
 };
 
+template<class F> static std::string guard_str(F f)
+{
+   try { return f(); } catch (const std::logic_error&) { return "!L"; } catch (const std::exception&) { return "!X"; }
+}
+
 static std::string dump_text(const Lexicon& lex, const Node& root)
 {
    Dump d(lex);
@@ -816,6 +821,18 @@ static void junk(World& w, unsigned n, unsigned salt)
    }
 }
 
+// Unrelated words until the Lexicon's string storage is `room` header slots short of the end of its current block: the words interned next
+// (the ones of the graph under construction) straddle the boundary -- the first of them closes the block, the next ones open a fresh one.
+static void fill_strings(World& w, unsigned room, unsigned salt)
+{
+   auto& lex = w.lex;
+   auto& arena = static_cast<ipr::impl::name_factory&>(lex).strings.strings;
+   for (unsigned long i = 0; arena.remaining_header_count() > static_cast<std::ptrdiff_t>(room) and i < 200000; ++i) {
+      std::string s = "f" + std::to_string(salt % 10) + std::to_string(i);
+      lex.get_string(std::u8string(reinterpret_cast<const char8_t*>(s.data()), s.size()));
+   }
+}
+
 // Scramble the allocator's free lists: blocks of every small size class are allocated and released in a pseudo-random
 // order, so that the next allocations of a class come back in an address order unrelated to the allocation order.
 // (Effective when freed blocks are reused at once: glibc, or ASan with quarantine_size_mb=0.)
@@ -1035,6 +1052,7 @@ namespace {
    {
       Builder b(w);
       if (ws.at(1) == "junk") junk(w, std::stoul(ws.at(2)), ++salt);
+      else if (ws.at(1) == "fill") fill_strings(w, std::stoul(ws.at(2)), ++salt);
       else if (ws.at(1) == "scramble") scramble(std::stoul(ws.at(2)));
       else if (ws.at(1) == "set") { b.a.assign(ws.begin() + 3, ws.end()); b.set(ws.at(2)); }
       else {
@@ -1107,6 +1125,32 @@ int main(int argc, char** argv)
             if (not o.node) throw Bad("not a node");
             std::cout << dump_text(w.lex, *o.node) << "enddump\n";
          }
+         else if (ws[0] == "links") {
+            // What the declarations of this world say about their place among the other declarations -- master(), definition(),
+            // the size of decl_set(), home and lexical regions -- read WITHOUT going through anything the printer or the dump reads
+            // (no initializer(), no type(), no name()): asked before the first print and after the last one.
+            auto& w = *worlds.at(ws.at(1));
+            std::map<const void*, std::string> who;
+            for (auto& [nm, o] : w.objs) if (o.node) who[dynamic_cast<const void*>(o.node)] = nm;
+            auto tok = [&](const ipr::Node* n) { if (n == nullptr) return std::string("-"); auto it = who.find(dynamic_cast<const void*>(n)); return it == who.end() ? std::string("?") : it->second; };
+            std::string out = "links";
+            for (auto& [nm, o] : w.objs) {
+               auto* d = o.node ? dynamic_cast<const ipr::Decl*>(o.node) : nullptr;
+               if (d == nullptr) continue;
+               out += " " + nm + ":";
+               out += guard_str([&] { return tok(&d->master()); }) + "/";
+               out += guard_str([&]() -> std::string {
+                  auto def_of = [&](auto* x) -> std::string { auto df = x->definition(); return df ? tok(&df.get()) : std::string("-"); };
+                  if (auto x = dynamic_cast<const ipr::Var*>(d)) return def_of(x);
+                  if (auto x = dynamic_cast<const ipr::Fundecl*>(d)) return def_of(x);
+                  if (auto x = dynamic_cast<const ipr::Typedecl*>(d)) return def_of(x);
+                  if (auto x = dynamic_cast<const ipr::Template*>(d)) return def_of(x);
+                  return "n/a"; }) + "/";
+               out += guard_str([&] { return std::to_string(d->decl_set().size()); }) + "/";
+               out += guard_str([&] { return tok(&d->home_region()); }) + "/" + guard_str([&] { return tok(&d->lexical_region()); });
+            }
+            std::cout << out << "\n";
+         }
          else if (ws[0] == "dumpeq") {
             auto& w1 = *worlds.at(ws.at(1)); auto& w2 = *worlds.at(ws.at(3));
             auto d1 = dump_text(w1.lex, *w1.objs.at(ws.at(2)).node);
@@ -1137,6 +1181,7 @@ int main(int argc, char** argv)
             auto& w = *worlds.at(ws.at(0));
             Builder b(w);
             if (ws.at(1) == "junk") { junk(w, std::stoul(ws.at(2)), ++salt); std::cout << "ok\n"; }
+            else if (ws.at(1) == "fill") { fill_strings(w, std::stoul(ws.at(2)), ++salt); std::cout << "ok\n"; }
             else if (ws.at(1) == "scramble") { scramble(std::stoul(ws.at(2))); std::cout << "ok\n"; }
             else if (ws.at(1) == "set") {
                b.a.assign(ws.begin() + 3, ws.end());
